@@ -187,6 +187,15 @@ class DefDomain(TagDomain):
         if isinstance(n, _ast.Attribute) and isinstance(n.value, _ast.Name) \
                 and n.value.id == 'self' and n.attr in self.hypers:
           return False
+      # a literal non-empty range / sequence always runs its body once
+      it = node.iter
+      if isinstance(it, _ast.Call) and isinstance(it.func, _ast.Name) and \
+              it.func.id == 'range' and len(it.args) == 1 and \
+              isinstance(it.args[0], _ast.Constant) and \
+              isinstance(it.args[0].value, int) and it.args[0].value > 0:
+        return False
+      if isinstance(it, (_ast.Tuple, _ast.List)) and it.elts:
+        return False
     return True
 
   def _facts(self, st):
